@@ -51,6 +51,54 @@ theorem add_sequence_no_panic (lex : Name → Lex) :
     | err e => simp
     | panic s' => rw [hr] at h; exact h.elim
 
+/-! ## T3 — reachable where declared -/
+
+/- **T3 `reachable`** (full statement): after `register … = ok st'`, every
+   function, method, constant and type of the library resolves (`resolvePath`)
+   at its declared path — module path ++ name, for methods and impl constants
+   the declared path of the type ++ name — and at `[last] ++ rest` for every
+   top-level `use` of a prefix of that path, to a declaration that carries the
+   item's own identity (`tag`) and its declared signature with every Rust type
+   replaced by the Roto name of the registered type; and at no other path.
+
+   Proved below (`reachable_partial`): the declared-path half for functions,
+   constants and types under any module nesting.  Missing: methods and
+   constants inside impl blocks, the paths named by `use` items, and the
+   "nowhere else" half; the correspondence run checks all three on every
+   generated library.  Refuted for a `use` *inside* a module
+   (`use_in_module_lands_in_parent`, known finding). -/
+
+/-- **T3, declared-path half** for functions, constants and types. -/
+theorem reachable_partial (lex : Name → Lex) (st st' : St) (hw : WF st) (items : Items)
+    (h : register Cfg.fixed lex st items = .ok st') (p : List Name) :
+    (∀ n ps r tag, ItemAt items p (.function n ps r tag) →
+      ∃ ps' r', convTys st' ps = .ok ps' ∧ convTy st' r = .ok r' ∧
+        resolvePath st' (p ++ [n]) = some ⟨.function ps' r' tag, none⟩) ∧
+    (∀ n ty tag, ItemAt items p (.constant n ty tag) →
+      ∃ ty', convTy st' ty = .ok ty' ∧ resolvePath st' (p ++ [n]) = some ⟨.const ty' tag, none⟩) ∧
+    (∀ n id, ItemAt items p (.type n id) →
+      ∃ s d sc, scopeAt st' [] p = some s ∧ convTy st' (.reg id) = .ok (.name ⟨s, n⟩) ∧
+        resolvePath st' (p ++ [n]) = some d ∧ d.scope = some sc) := by
+  have hadd : add Cfg.fixed lex st items = .ok st' := by
+    unfold register at h
+    split at h
+    · exact h
+    · cases h
+  have hall := add_post lex hw items hadd
+  refine ⟨fun n ps r tag hi => ?_, fun n ty tag hi => ?_, fun n id hi => ?_⟩
+  · obtain ⟨s, hs, hq⟩ := holds_itemAt hi [] hall
+    simp only [HoldsItem, QDecl] at hq
+    obtain ⟨ps', r', h1, h2, h3⟩ := hq
+    exact ⟨ps', r', h1, h2, resolvePath_scopeAt st' p s n _ hs h3⟩
+  · obtain ⟨s, hs, hq⟩ := holds_itemAt hi [] hall
+    simp only [HoldsItem, QDecl] at hq
+    obtain ⟨ty', h1, h2⟩ := hq
+    exact ⟨ty', h1, resolvePath_scopeAt st' p s n _ hs h2⟩
+  · obtain ⟨s, hs, hq⟩ := holds_itemAt hi [] hall
+    simp only [HoldsItem, QDecl] at hq
+    obtain ⟨h1, d, sc, h2, h3⟩ := hq
+    exact ⟨s, d, sc, hs, by simp [convTy, h1], resolvePath_scopeAt st' p s n _ hs h2, h3⟩
+
 /-! ## witnesses -/
 
 def lexV : Name → Lex := fun _ => ⟨some (some .ident), false, true⟩
@@ -64,6 +112,10 @@ def st0 : St := St.init [(50, 100)] []
 /-- non-vacuity of T1: `st0` is well-formed and a nested library registers -/
 example : (register Cfg.fixed lexV st0 (il [.module 0 (il [.module 1 (il [fn0 2 7])]), .use [[0, 1, 2]]])).isOk = true := by
   decide
+
+/-- non-vacuity of T3: a function two modules deep -/
+example : ItemAt (il [.module 0 (il [.module 1 (il [fn0 2 7])]), .use [[0, 1, 2]]]) [0, 1] (fn0 2 7) :=
+  .inside 0 _ (.inside 1 _ (.here _ _))
 
 /-! ## the defects of the pinned tree, refuted on the model as pinned -/
 
